@@ -34,7 +34,9 @@ def gen_cases(tier, seed):
     rng = random.Random(seed * 7919 + 19)
     n = 50 if tier == "quick" else 1250
     cases = []
-    for a in [0.01 + 1e-9, 0.05, 0.5, 1.0, 2.0, 5.0, 1, 2, 5] + [rng.uniform(0.01, 5) for _ in range(n - 9)]:
+    small = [1e-5, 2e-4, 5e-4, 9.99e-4, 1e-3, 3e-3]      # "a > 0": mean degrees in the hundreds and thousands are rates like these
+    for a in [0.01 + 1e-9, 0.05, 0.5, 1.0, 2.0, 5.0, 1, 2, 5] + small + [rng.uniform(0.01, 5) if rng.random() < 0.8 else math.exp(rng.uniform(math.log(1e-5), math.log(1e-2)))
+                                                                        for _ in range(n - 15)]:
         cases.append({"dist": "exponential", "params": [a]})
     for m in [0.05 + 1e-9, 0.5, 1.0, 2.0, 7.3, 30.0, 1, 2, 7, 30] + [rng.uniform(0.05, 30) for _ in range(n - 10)]:
         cases.append({"dist": "poisson", "params": [m]})
@@ -123,7 +125,8 @@ def check_point(res, dist, params):
         a = D(params[0])
         exact = lambda k: (1 - (-a).exp()) * (-a * k).exp()
         ks = list(range(0, 200)) + [500, 1000]
-        tol = 1e-12
+        # 1 - exp(-a) cancels for small rates: ANY float evaluation of the named formula carries a relative error of about eps / a there
+        tol = 1e-12 + 4 * 2.22e-16 / min(float(params[0]), 1.0)
         lib = {k: val(k) for k in ks}
         for k in ks:
             e = exact(k)
